@@ -7,6 +7,7 @@
 //
 //   adprog <cases.ndjson> <expected.ndjson> <trace.ndjson>
 #include "common.hpp"
+#include "termeval.hpp"
 
 #include <opm/material/densead/Evaluation.hpp>
 #include <opm/material/densead/Math.hpp>
@@ -17,36 +18,6 @@
 
 using namespace vf;
 namespace AD = Opm::DenseAd;
-
-// ---- term interpreter (long double)
-static long double evalTerm(const json& t) {
-    if (t["t"] == "q") return static_cast<long double>(t["n"].get<long>()) / static_cast<long double>(t["d"].get<long>());
-    const std::string f = t["f"];
-    const auto& a = t["a"];
-    auto A = [&](int i) { return evalTerm(a[i]); };
-    if (f == "+") return A(0) + A(1);
-    if (f == "-") return A(0) - A(1);
-    if (f == "*") return A(0) * A(1);
-    if (f == "/") return A(0) / A(1);
-    if (f == "neg") return -A(0);
-    if (f == "sqrt") return std::sqrt(A(0));
-    if (f == "exp") return std::exp(A(0));
-    if (f == "log") return std::log(A(0));
-    if (f == "log10") return std::log10(A(0));
-    if (f == "sin") return std::sin(A(0));
-    if (f == "cos") return std::cos(A(0));
-    if (f == "tan") return std::tan(A(0));
-    if (f == "asin") return std::asin(A(0));
-    if (f == "acos") return std::acos(A(0));
-    if (f == "atan") return std::atan(A(0));
-    if (f == "sinh") return std::sinh(A(0));
-    if (f == "cosh") return std::cosh(A(0));
-    if (f == "asinh") return std::asinh(A(0));
-    if (f == "acosh") return std::acosh(A(0));
-    if (f == "pow") return std::pow(A(0), A(1));
-    if (f == "atan2") return std::atan2(A(0), A(1));
-    throw std::runtime_error("unknown function in term: " + f);
-}
 
 static double qd(const json& q) { return double(q[0].get<long>()) / double(q[1].get<long>()); }
 
